@@ -108,6 +108,41 @@ class SymBool:
     def __repr__(self):
         return f"SymBool({self.e})"
 
+    # counting: np.sum over an array of comparisons adds booleans as 0/1
+    def _as_num(self):
+        return Sym(z3.If(self.e, z3.RealVal(1), z3.RealVal(0)))
+
+    def __add__(self, o):
+        if isinstance(o, (SymBool, bool, np.bool_)):
+            o = SymBool(o)._as_num()
+        return self._as_num() + o
+
+    __radd__ = __add__
+
+    def __mul__(self, o):
+        return self._as_num() * o
+
+    __rmul__ = __mul__
+
+    def __sub__(self, o):
+        if isinstance(o, (SymBool, bool, np.bool_)):
+            o = SymBool(o)._as_num()
+        return self._as_num() - o
+
+    def __rsub__(self, o):
+        return o - self._as_num()
+
+    def __truediv__(self, o):
+        return self._as_num() / o
+
+    def __rtruediv__(self, o):
+        return o / self._as_num()
+
+    def __le__(self, o): return self._as_num() <= o
+    def __lt__(self, o): return self._as_num() < o
+    def __ge__(self, o): return self._as_num() >= o
+    def __gt__(self, o): return self._as_num() > o
+
     # numpy's logical_not on object arrays calls this
     def logical_not(self):
         return ~self
